@@ -796,7 +796,7 @@ def gen_cases(rng, tier):
     from ..lib.term import to_text
 
     cases = []
-    n_uni = 10 if tier == "quick" else 150
+    n_uni = 16 if tier == "quick" else 150
     per = 24 if tier == "quick" else 40
     for _ in range(n_uni):
         u = gen_universe(rng, n_roots=rng.choice([1, 2, 2]), max_levels=2, rich=rng.random() < 0.6, force_falsy=rng.random() < 0.35)
